@@ -18,6 +18,7 @@ import (
 	"context"
 	"fmt"
 	"regexp"
+	"slices"
 	"strings"
 	"time"
 
@@ -227,10 +228,17 @@ func (s *Service) Update(ctx context.Context, id string, plugin string, data Con
 		return nil, err
 	}
 
+	if err := s.validateConnector(data, id); err != nil {
+		return nil, cerrors.Errorf("connector is invalid: %w", err)
+	}
+	if plugin == "" {
+		return nil, cerrors.New("must provide a plugin")
+	}
 	if conn.Plugin != plugin {
 		s.logger.Warn(ctx).Msgf("connector plugin changing from %v to %v, "+
 			"this may lead to unexpected behavior and configuration issues.", conn.Plugin, plugin)
 	}
+	oldPlugin, oldConfig, oldUpdatedAt := conn.Plugin, conn.Config, conn.UpdatedAt
 	conn.Plugin = plugin
 	conn.Config = data
 	conn.UpdatedAt = time.Now().UTC()
@@ -238,6 +246,7 @@ func (s *Service) Update(ctx context.Context, id string, plugin string, data Con
 	// persist conn
 	err = s.store.Set(ctx, id, conn)
 	if err != nil {
+		conn.Plugin, conn.Config, conn.UpdatedAt = oldPlugin, oldConfig, oldUpdatedAt
 		return nil, err
 	}
 
@@ -251,12 +260,14 @@ func (s *Service) AddProcessor(ctx context.Context, connectorID string, processo
 		return nil, err
 	}
 
-	conn.ProcessorIDs = append(conn.ProcessorIDs, processorID)
+	oldIDs, oldUpdatedAt := conn.ProcessorIDs, conn.UpdatedAt
+	conn.ProcessorIDs = append(slices.Clone(conn.ProcessorIDs), processorID)
 	conn.UpdatedAt = time.Now().UTC()
 
 	// persist conn
 	err = s.store.Set(ctx, connectorID, conn)
 	if err != nil {
+		conn.ProcessorIDs, conn.UpdatedAt = oldIDs, oldUpdatedAt
 		return nil, err
 	}
 
@@ -281,12 +292,14 @@ func (s *Service) RemoveProcessor(ctx context.Context, connectorID string, proce
 		return nil, cerrors.Errorf("%w (ID: %s)", ErrProcessorIDNotFound, processorID)
 	}
 
-	conn.ProcessorIDs = conn.ProcessorIDs[:processorIndex+copy(conn.ProcessorIDs[processorIndex:], conn.ProcessorIDs[processorIndex+1:])]
+	oldIDs, oldUpdatedAt := conn.ProcessorIDs, conn.UpdatedAt
+	conn.ProcessorIDs = slices.Delete(slices.Clone(conn.ProcessorIDs), processorIndex, processorIndex+1)
 	conn.UpdatedAt = time.Now().UTC()
 
 	// persist conn
 	err = s.store.Set(ctx, connectorID, conn)
 	if err != nil {
+		conn.ProcessorIDs, conn.UpdatedAt = oldIDs, oldUpdatedAt
 		return nil, err
 	}
 
